@@ -19,7 +19,9 @@ VARIABLES s, call
 vars == <<s, call>>
 
 \* a B space newline e-acute grinning-face < & % ' + "
-AlphaWide == { <<97>>, <<66>>, <<32>>, <<10>>, <<195, 169>>, <<240, 159, 152, 128>>, <<60>>, <<62>>, <<38>>, <<37>>, <<39>>, <<43>>, <<34>> }
+\* ... dotless-i long-s turned-a (letters whose other case is encoded in another number of bytes)
+AlphaWide == { <<97>>, <<66>>, <<32>>, <<10>>, <<195, 169>>, <<240, 159, 152, 128>>, <<60>>, <<62>>, <<38>>, <<37>>, <<39>>, <<43>>, <<34>>,
+               <<196, 177>>, <<197, 191>>, <<201, 144>> }
 AlphaCore == { <<97>>, <<66>>, <<32>>, <<195, 169>>, <<60>>, <<38>> }
 Alpha == IF Wide THEN AlphaWide ELSE AlphaCore
 
@@ -71,9 +73,11 @@ StripHtmlLaw == (Single /\ call.name = "strip_html" /\ Dec) =>
                   /\ (\A i \in 1..Len(s) : s[i] \notin {60, 62}) => R.v.v = s
 UrlRoundTrip == (Single /\ call.name = "url_encode" /\ Dec) => App("url_decode", R.v.v, <<>>) = FVal(Str(s))
 StripIsBoth == (Single /\ call.name = "strip" /\ Dec) => R.v.v = LStrip(RStrip(s)) /\ R.v.v = RStrip(LStrip(s))
+\* (dotless i and long s have no way back: their capitals are the plain I and S)
+OneWay == \E i \in 1..Len(Chars(s)) : Chars(s)[i] \in {DotlessI, LongS}
 CaseLaws == (Single /\ call.name = "upcase" /\ Dec) =>
                /\ App("upcase", R.v.v, <<>>) = R
-               /\ App("downcase", R.v.v, <<>>) = App("downcase", s, <<>>)
+               /\ (~OneWay => App("downcase", R.v.v, <<>>) = App("downcase", s, <<>>))
 SizeCountsChars == (Single /\ call.name = "size" /\ Dec) => R.v = IntV(Len(Chars(s)))
 SplitJoinInverse ==
   (call.name = "split" /\ Dec /\ call.args[1].v # <<>> /\ call.args[1].v # <<32>>) =>
